@@ -190,7 +190,7 @@ def run_case(ctx, items, labelmsm, seekable=False):
 def run(ctx):
     common.quiet_logging()
     rng = ctx.rng
-    for i in range(ctx.n(4000, 60000)):
+    for i in range(ctx.n(6000, 60000)):
         run_case(ctx, make(rng, with_damage=bool(i % 2)), 1 + (i // 2) % 2, seekable=bool((i // 4) % 2))
 
 
